@@ -10,7 +10,10 @@ import time
 
 VERIF = os.path.dirname(os.path.dirname(os.path.dirname(os.path.abspath(__file__))))
 SPEC = os.path.join(VERIF, "spec")
-BUILD = os.path.join(VERIF, "build")
+# VERIF_BUILD_DIR: private scratch directory (development: several checks side by side);
+# the table cache is shared and only ever written atomically
+BUILD = os.environ.get("VERIF_BUILD_DIR") or os.path.join(VERIF, "build")
+TABLES = os.path.join(VERIF, "build", "tables")
 BSPEC = os.path.join(BUILD, "spec")
 
 
